@@ -2087,8 +2087,16 @@ def gen_struct(rng, malformed=None):
             start = rng.choice([-9999, -5, -n, -1])                 # increasing, starting below zero
             aids = [start + i for i in range(n)]
         elif r < 0.24:
-            aids = rng.sample(range(1, 90000), n)                     # unique, unsorted
-            if rng.random() < 0.7:
+            if not f["h36"] and rng.random() < 0.5:
+                # unique, unsorted, with negative ids anywhere (not only in front): the id map must be offset by the smallest id
+                aids = rng.sample(list(range(-9999, -9990)) + list(range(-12, 40)) + [0], n) if n <= 60 else rng.sample(range(-9999, 90000), n)
+                if all(x >= 0 for x in aids[1:]):
+                    aids[rng.randrange(1, n)] = -rng.randint(1, 9999)
+                    while len(set(aids)) < n:
+                        aids[rng.randrange(1, n)] = -rng.randint(1, 9999)
+            else:
+                aids = rng.sample(range(1, 90000), n)                 # unique, unsorted
+            if rng.random() < 0.8:
                 aids[-1] = max(aids) + 1                              # the reader needs the largest id last
         elif r < 0.32:
             aids = sorted(rng.choice(range(1, 4 + n // 2)) for _ in range(n))      # duplicates
@@ -2498,6 +2506,13 @@ def corpus():
                     ("h36-max", _one(resid=2436111, f_h36=True, f_id=True, id=87440031)), ("neg-zero", _one(x=-0.0001)),
                     ("tie", _one(x=0.0625, f_b=True, bf=0.125)), ("empty-chain", _one(chain="", resid=1234, ins="B"))]:
         out.append({"kind": "corpus-" + name, "ops": struct_ops(S)})
+    # atom ids [3, -2, 5, 6, 7] with bonds of the negative-id atom (the id map is offset by the smallest id, wherever it is)
+    S = _one()
+    S["atoms"] = [dict(S["atoms"][0], id=i, resid=k + 1, het=True) for k, i in enumerate([3, -2, 5, 6, 7])]
+    S["models"] = [[[1.0, 2.0, 3.0]] * 5]
+    S["bonds"] = [(0, 1), (1, 2), (1, 4), (3, 4)]
+    S["flags"].update(id=True, bonds=True)
+    out.append({"kind": "corpus-negative-id-not-first", "ops": struct_ops(S)})
     return out
 
 
